@@ -52,16 +52,16 @@ Proof. exact spi_context_is_current. Qed.
 Print Assumptions C15_spi_context_is_current.
 
 Theorem C15_released_by_election : forall s k h v, reach s -> l_worker s = WBusy k -> (l_elect s = Some (h, v) \/ l_main s = MFwdTrig h v) ->
-  hv_lt k (h, v + 1) = true -> ctx_done (l_reg s) k = true /\ exists s', lstep s LSpiReleased = Some s' /\ l_worker s' = WSelect.
+  hv_lt k (h, v + 1) = true -> ctx_done (l_reg s) k = true /\ exists s', lstep s (LSpiReleased ENothing) = Some s' /\ l_worker s' = WSelect.
 Proof. exact spi_released_by_election. Qed.
 Print Assumptions C15_released_by_election.
 
 Theorem C15_released_by_sync : forall s k hb, reach s -> l_worker s = WBusy k -> (l_upd s = Some hb \/ l_main s = MFwdSync hb) ->
-  hv_lt k (hb + 1, 0) = true -> ctx_done (l_reg s) k = true /\ exists s', lstep s LSpiReleased = Some s' /\ l_worker s' = WSelect.
+  hv_lt k (hb + 1, 0) = true -> ctx_done (l_reg s) k = true /\ exists s', lstep s (LSpiReleased ENothing) = Some s' /\ l_worker s' = WSelect.
 Proof. exact spi_released_by_sync. Qed.
 Print Assumptions C15_released_by_sync.
 
 Theorem C15_released_by_shutdown : forall s k, reach s -> l_worker s = WBusy k -> l_main s = MExited ->
-  ctx_done (l_reg s) k = true /\ exists s', lstep s LSpiReleased = Some s' /\ l_worker s' = WSelect.
+  ctx_done (l_reg s) k = true /\ exists s', lstep s (LSpiReleased ENothing) = Some s' /\ l_worker s' = WSelect.
 Proof. exact spi_released_by_shutdown. Qed.
 Print Assumptions C15_released_by_shutdown.
